@@ -88,6 +88,11 @@ pub struct RtProgram {
     /// dispatches again: the limit decides about that event like about any other
     #[serde(default)]
     pub resume_add: bool,
+    /// the whole program happens late in a long simulation: this many nanoseconds are added to every absolute time
+    /// (start time, timestamps, limits, until-times), so that timestamps one nanosecond apart lie beyond 2^53 ns.
+    /// Honoured only for bucket widths of a second or more (the calendar walks from 0 to the first event).
+    #[serde(default)]
+    pub epoch_ns: u64,
 }
 
 // ---------------------------------------------------------------- static expansion
@@ -197,6 +202,20 @@ thread_local! {
     static SCALE: std::cell::Cell<u128> = const { std::cell::Cell::new(1) };
 }
 pub const MAX_SCALE: u64 = 1_000_000_000_000;
+thread_local! {
+    static EPOCH: std::cell::Cell<u128> = const { std::cell::Cell::new(0) };
+}
+pub const MAX_EPOCH: u64 = 40_000_000_000_000_000;
+fn epoch() -> u128 {
+    EPOCH.with(|s| s.get())
+}
+fn epoch_of(p: &RtProgram) -> u128 {
+    if u128::from(p.t_ns.max(1)) * u128::from(p.scale.clamp(1, MAX_SCALE)) >= 1_000_000_000 {
+        u128::from(p.epoch_ns.min(MAX_EPOCH))
+    } else {
+        0
+    }
+}
 fn scale() -> u128 {
     SCALE.with(|s| s.get())
 }
@@ -205,13 +224,18 @@ fn dur(units: u64) -> Duration {
     Duration::new((total / 1_000_000_000) as u64, (total % 1_000_000_000) as u32)
 }
 fn st(units: u64) -> SimTime {
-    SimTime::from_duration(dur(units))
+    let total = u128::from(units) * scale() + epoch();
+    SimTime::from_duration(Duration::new((total / 1_000_000_000) as u64, (total % 1_000_000_000) as u32))
 }
 /// program time units of a simulation time; a time that is not a whole number of units cannot be one the program
 /// produced and maps to a value no program time equals
 fn ns_of(t: SimTime) -> u64 {
     let n = t.as_nanos();
     let s = scale();
+    if n < epoch() {
+        return (u64::MAX >> 1) + (n % 1_000_003) as u64;
+    }
+    let n = n - epoch();
     if n % s != 0 || n / s > u128::from(u64::MAX >> 2) {
         return (u64::MAX >> 1) + (n % 1_000_003) as u64;
     }
@@ -380,7 +404,7 @@ fn make_runtime(p: &RtProgram, with_limits: bool) -> Runtime<App> {
     let app = App { insts, specs: p.specs.clone(), roots, log: Log::default(), panic_uid };
     let mut b = Builder::seeded(1).quiet().cqueue_options(p.n.max(1), dur(t));
     let start = cap_delta(p.start_ns, t);
-    if start > 0 {
+    if start > 0 || epoch() > 0 {
         b = b.start_time(st(start));
     }
     if with_limits {
@@ -543,6 +567,10 @@ fn run_plain(p: &RtProgram, with_limits: bool) -> RealRun {
 pub fn execute(p: &RtProgram, prop: &str) -> RunInfo {
     let mut info = RunInfo::default();
     SCALE.with(|s| s.set(u128::from(p.scale.clamp(1, MAX_SCALE))));
+    EPOCH.with(|s| s.set(epoch_of(p)));
+    if epoch() > 0 {
+        info.probe("program_late_in_a_long_simulation");
+    }
     let t = p.t_ns.max(1);
     let start = cap_delta(p.start_ns, t);
     let (insts, roots) = expand(p);
@@ -1468,7 +1496,11 @@ pub fn generate(prop: &str, rng: &mut Rng, tier: Tier) -> RtProgram {
     // now and then the whole program is stretched: its time unit is not the nanosecond but up to 1000 s, which moves
     // start time, timestamps and bucket width beyond 2^64 ns (584 simulated years) without changing the program
     let scale = if rng.chance(1, 12) { *rng.pick(&[7u64, 1_000, 1_000_000, 1_000_000_007, 1_000_000_000_000, 1_000_000_000_000]) } else { 1 };
-    let mut prog = RtProgram { n, t_ns, scale, start_ns, specs, roots, max_instances, limits: vec![], steps: vec![], intruder: None, helper_reads: false, panic_uid: None, resume_add: false };
+    let mut prog = RtProgram { n, t_ns, scale, start_ns, specs, roots, max_instances, limits: vec![], steps: vec![], intruder: None, helper_reads: false, panic_uid: None, resume_add: false, epoch_ns: 0 };
+    // very rarely the program is moved late into a long simulation (beyond 2^53 ns), keeping its nanosecond granularity
+    if (prop == "C02" || prop == "C10" || prop == "C11") && t_ns >= 1_000_000_000 && scale == 1 && rng.chance(1, 5000) {
+        prog.epoch_ns = *rng.pick(&[10_000_000_000_000_000u64, 18_014_398_509_481_984, 34_560_000_000_000_000]) + rng.below(1_000_000_000);
+    }
     if prop == "C02" && rng.chance(1, 100) {
         prog.helper_reads = true;
     }
